@@ -241,31 +241,178 @@ def r05_3(chk):
     chk.floor("R05.3", 3, "WeightedPartitionDefn, MonotonicDefn, GammaDefn")
 
 
+class _PE(Exception):
+    pass
+
+
+class _Raises(Exception):
+    pass
+
+
+def _peval(fn, env):
+    """partial evaluation of a small straight-line/if function for known constant arguments.
+    Unknown names evaluate to ('sym', name); a call of one to ('call', name, ((kw, value), ...)).
+    Returns the returned value, or ('raises',) when every path for these arguments raises."""
+
+    def ev(e):
+        if isinstance(e, ast.Constant):
+            return e.value
+        if isinstance(e, ast.Name):
+            return env[e.id] if e.id in env else ("sym", e.id)
+        if isinstance(e, ast.Tuple):
+            return tuple(ev(x) for x in e.elts)
+        if isinstance(e, ast.Dict):
+            return {"__dict__": [(ev(k), v) for k, v in zip(e.keys, e.values)]}
+        if isinstance(e, ast.Subscript):
+            base, idx = ev(e.value), ev(e.slice)
+            if isinstance(base, dict) and "__dict__" in base:
+                for k, v in base["__dict__"]:
+                    if k == idx:
+                        return ev(v)
+                raise _Raises("KeyError")
+            if isinstance(base, tuple) and base[:1] != ("sym",) and isinstance(idx, int):
+                return base[idx]
+            raise _PE(norm(e))
+        if isinstance(e, ast.Call):
+            cn = call_name(e)
+            if cn == "str" and len(e.args) == 1:
+                v = ev(e.args[0])
+                if isinstance(v, str):
+                    return v
+                raise _PE(norm(e))
+            if isinstance(e.func, ast.Attribute) and e.func.attr in ("lower", "strip") and not e.args:
+                v = ev(e.func.value)
+                if isinstance(v, str):
+                    return getattr(v, e.func.attr)()
+            f = ev(e.func)
+            if isinstance(f, tuple) and f[:1] == ("sym",):
+                return ("call", f[1], tuple(ev(a) for a in e.args), tuple(sorted((kw.arg, ev(kw.value)) for kw in e.keywords)))
+            raise _PE(norm(e))
+        if isinstance(e, ast.UnaryOp) and isinstance(e.op, ast.Not):
+            return not truth(ev(e.operand))
+        if isinstance(e, ast.BoolOp):
+            r = None
+            for x in e.values:
+                r = ev(x)
+                t = truth(r)
+                if (isinstance(e.op, ast.And) and not t) or (isinstance(e.op, ast.Or) and t):
+                    break
+            return r
+        if isinstance(e, ast.Compare) and len(e.ops) == 1:
+            a, b = ev(e.left), ev(e.comparators[0])
+            for x in (a, b):
+                if isinstance(x, tuple) and x[:1] in (("sym",), ("call",)):
+                    raise _PE(norm(e))
+            op = e.ops[0]
+            if isinstance(op, ast.Eq):
+                return a == b
+            if isinstance(op, ast.NotEq):
+                return a != b
+            if isinstance(op, ast.In):
+                return a in b
+            if isinstance(op, ast.NotIn):
+                return a not in b
+            if isinstance(op, ast.Is):
+                return a is b
+            if isinstance(op, ast.IsNot):
+                return a is not b
+        if isinstance(e, ast.IfExp):
+            return ev(e.body) if truth(ev(e.test)) else ev(e.orelse)
+        raise _PE(norm(e))
+
+    def truth(v):
+        if isinstance(v, tuple) and v[:1] in (("sym",), ("call",)):
+            raise _PE("truth value of a symbol")
+        if isinstance(v, dict):
+            raise _PE("truth value of a table")
+        return bool(v)
+
+    class _Ret(Exception):
+        def __init__(self, v):
+            self.v = v
+
+    def bind(t, v):
+        if isinstance(t, ast.Name):
+            env[t.id] = v
+        elif isinstance(t, (ast.Tuple, ast.List)) and isinstance(v, tuple) and len(v) == len(t.elts):
+            for a, b in zip(t.elts, v):
+                bind(a, b)
+        else:
+            raise _PE(f"target {norm(t)}")
+
+    def run(stmts):
+        for st in stmts:
+            if isinstance(st, ast.Expr) and isinstance(st.value, ast.Constant):
+                continue
+            if isinstance(st, ast.Assign):
+                v = ev(st.value)
+                for t in st.targets:
+                    bind(t, v)
+            elif isinstance(st, ast.If):
+                run(st.body if truth(ev(st.test)) else st.orelse)
+            elif isinstance(st, ast.Return):
+                raise _Ret(ev(st.value) if st.value is not None else None)
+            elif isinstance(st, ast.Raise):
+                raise _Raises(norm(st))
+            elif isinstance(st, ast.Assert):
+                if not truth(ev(st.test)):
+                    raise _Raises("assert")
+            else:
+                raise _PE(f"statement {norm(st)[:50]}")
+
+    try:
+        run(fn.body)
+    except _Ret as r:
+        return r.v
+    except _Raises:
+        return ("raises",)
+    return None
+
+
 def r05_4(chk):
-    chk.rule("R05.4", "ExpDefn.calc: the option table has exactly the documented keys (eigen, checked, pade, either), each a triple of booleans, and every flag combination returns an exponentiator")
+    chk.rule("R05.4", "ExpDefn.calc gives each documented exponentiator setting its documented meaning: evaluating the method for the four option strings (partial evaluation with the string known, class names symbolic) yields eigen -> FastExponentiator, checked -> CheckedExponentiator, pade -> PadeExponentiator, either -> _EigenPade(eigen=CheckedExponentiator) -- the 'either' setting (the default) falls back to Pade only if the eigen route is the CHECKED one; every setting returns an exponentiator; the default setting is one of the four")
     m = chk.repo.module("evolve/substitution_calculation.py")
     fn = m.func("ExpDefn.calc")
-    dicts = [d for d in walk_no_nested(fn) if isinstance(d, ast.Dict)]
-    if not dicts:
-        raise AnalysisError("ExpDefn.calc: option table not found")
-    ok, tab = try_fold(dicts[0], m)
-    good = ok and set(tab) == {"eigen", "checked", "pade", "either"} and all(isinstance(v, tuple) and len(v) == 3 and all(isinstance(b, bool) for b in v) for v in tab.values())
-    chk.decide(good, "R05.4", key(m, "ExpDefn.calc", "option table"), m.loc(dicts[0]), f"{tab}", f"option table is {tab}")
-    if good:
-        want = {"eigen": (True, False, False), "checked": (True, True, False), "pade": (False, False, True), "either": (True, True, True)}
-        for kopt, v in sorted(tab.items()):
-            chk.decide(v == want[kopt], "R05.4", key(m, "ExpDefn.calc", f"option {kopt}"), m.loc(dicts[0]), f"{kopt} -> (allow_eigen, check_eigen, allow_pade) = {v}", f"{kopt} maps to {v}, documented meaning is {want[kopt]}")
+    par = [p for p in params_of(fn) if p != "self"][0]
+    want = {
+        "eigen": ("sym", "FastExponentiator"),
+        "checked": ("sym", "CheckedExponentiator"),
+        "pade": ("sym", "PadeExponentiator"),
+        "either": ("call", "_EigenPade", (), (("eigen", ("sym", "CheckedExponentiator")),)),
+    }
+
+    def show(v):
+        if isinstance(v, tuple) and v[:1] == ("sym",):
+            return v[1]
+        if isinstance(v, tuple) and v[:1] == ("call",):
+            return f"{v[1]}({', '.join([show(a) for a in v[2]] + [f'{k}={show(x)}' for k, x in v[3]])})"
+        return repr(v)
+
+    for opt in sorted(want):
+        k = key(m, "ExpDefn.calc", f"option {opt}")
+        try:
+            got = _peval(fn, {par: opt})
+        except (_PE, KeyError) as e:
+            chk.unresolved("R05.4", k, m.loc(fn), f"calc uses a construct the partial evaluator does not model: {e}")
+            continue
+        # positional spelling of the wrapper's argument is the same thing
+        if isinstance(got, tuple) and got[:1] == ("call",) and got[1] == "_EigenPade" and len(got[2]) == 1 and not got[3]:
+            got = ("call", "_EigenPade", (), (("eigen", got[2][0]),))
+        if got == ("raises",) or got is None:
+            chk.violation("R05.4", key(m, "ExpDefn.calc", "option table"), m.loc(fn), f"the documented setting {opt!r} " + ("is refused" if got else "returns nothing") + ": models asking for it cannot compute a transition matrix")
+        else:
+            chk.decide(got == want[opt], "R05.4", k, m.loc(fn), f"{opt} -> {show(got)}", f"expm={opt!r} selects {show(got)}, documented meaning is {show(want[opt])}" + (": the eigen-decomposition result is returned unchecked, so a (nearly) defective rate matrix gives a wrong P instead of falling back to Pade" if opt == "either" else ""))
     # every path returns something
     g = build(fn)
     rets = [n for n in g.nodes if n.kind == "return"]
-    seen = g.reachable([g.entry], blocked=rets, kinds=("n",))
+    seen = g.reachable([g.entry], blocked=rets + [n for n in g.nodes if n.kind == "raise"], kinds=("n",))
     chk.decide(id(g.exit) not in seen and all(r.ast.value is not None for r in rets), "R05.4", key(m, "ExpDefn.calc", "always returns an exponentiator"), m.loc(fn), f"{len(rets)} returns cover every path", "a flag combination falls off the end (returns None)")
     # default setting is one of the keys
     sm = chk.repo.module(SM)
     d = sm.cls("_ContinuousSubstitutionModel").assigns.get("_default_expm_setting")
     okd, dv = try_fold(d, sm) if d is not None else (False, None)
-    chk.decide(okd and good and dv in tab, "R05.4", key(sm, "_ContinuousSubstitutionModel", "_default_expm_setting"), sm.loc(d) if d is not None else sm.loc(sm.cls("_ContinuousSubstitutionModel").node), f"default {dv!r} is a table key", f"default {dv!r} is not a key of the option table")
-    chk.floor("R05.4", 6, "table, 4 options, returns")
+    chk.decide(okd and dv in want, "R05.4", key(sm, "_ContinuousSubstitutionModel", "_default_expm_setting"), sm.loc(d) if d is not None else sm.loc(sm.cls("_ContinuousSubstitutionModel").node), f"default {dv!r} is a documented setting", f"default {dv!r} is not one of the documented settings")
+    chk.floor("R05.4", 6, "4 options, returns, default")
 
 
 EXP_STATE_ALLOWED = {("TaylorExponentiator", "q"): "series-length hint only: the loop still iterates to convergence, so the result does not depend on it; not selectable through ExpDefn"}
